@@ -192,6 +192,7 @@ type Conn struct {
 	mu               sync.Mutex
 	closed           bool
 	resetFailsWrites bool
+	closeErr         error
 	rdl, wdl         time.Time
 	rdt, wdt         *time.Timer
 	Deadlines        []DEvent
@@ -600,8 +601,16 @@ func (c *Conn) Close() error {
 	c.rd.buf = nil
 	c.rd.mu.Unlock()
 	c.rd.cond.Broadcast()
-	return nil
+	c.mu.Lock()
+	err := c.closeErr
+	c.mu.Unlock()
+	return err
 }
+
+// SetCloseErr makes the (first) Close of this end report err although it
+// does close the connection, as a TLS connection does when its closing alert
+// cannot be sent, or a socket whose pending data was lost.
+func (c *Conn) SetCloseErr(err error) { c.mu.Lock(); c.closeErr = err; c.mu.Unlock() }
 
 // Closed reports whether Close was called on this end, and when.
 func (c *Conn) Closed() (bool, time.Duration) {
